@@ -706,6 +706,37 @@ func c01ImportFlag(c *Ctx) {
 							}
 						}
 					}
+					// the set is a member of the walker's receiver: it is what the constructor of that struct was handed
+					if u, isLoad := lk.X.(*ssa.UnOp); isLoad && u.Op == token.MUL {
+						if fa, isFA := u.X.(*ssa.FieldAddr); isFA {
+							if _, isP := stripConv(fa.X).(*ssa.Parameter); isP {
+								for _, g0 := range p.SSAFuncsOf([]*packages.Package{pk}) {
+									for _, g := range allSSAFuncs(g0) {
+										for _, b := range g.Blocks {
+											for _, ins := range b.Instrs {
+												st, isSt := ins.(*ssa.Store)
+												if !isSt {
+													continue
+												}
+												fa2, isFA2 := st.Addr.(*ssa.FieldAddr)
+												if !isFA2 || fa2.Field != fa.Field || !types.Identical(derefType(fa2.X.Type()), derefType(fa.X.Type())) {
+													continue
+												}
+												if q, isQ := stripConv(st.Val).(*ssa.Parameter); isQ {
+													for i, qq := range g.Params {
+														if qq == q {
+															rec, recIdx = g, i
+															desc = "isImport = !ok of a lookup of the path in a member of the receiver of " + f.Name() + ", set from parameter #" + fmt.Sprint(i) + " of " + g.Name()
+														}
+													}
+												}
+											}
+										}
+									}
+								}
+							}
+						}
+					}
 					break
 				}
 			}
